@@ -22,7 +22,7 @@ RULE = ("cases = (input, source kind, builder, namespacing, document|fragment+co
         "input is longer than 3 characters.")
 ASSUMPTIONS = [
     "termination is decided as bounded progress: a logical step budget proportional to (n+1)*(depth+2)*K; the wall-clock watchdog is separate and only makes a run inconclusive",
-    "skeleton reading: html's element children must START with head then body|frameset; a later noframes child after a frameset is what the WHATWG algorithm itself produces and is not counted",
+    "skeleton reading: html's element children must START with head then body|frameset; after a frameset the WHATWG algorithm itself can add children to html (noframes; formatting elements reconstructed by trailing whitespace, e.g. <font><frameset></frameset></html>SPACE) and those are not counted; after a body nothing may follow",
     "container names are element names (non-empty strings)",
 ]
 
@@ -123,7 +123,9 @@ def check_skeleton(flat):
     if len(els) < 2 or els[0] != "head" or els[1] not in ("body", "frameset"):
         return "html element children are %r" % (els[:5],)
     extra = els[2:]
-    if extra and not (els[1] == "frameset" and all(x == "noframes" for x in extra)):
+    # after a frameset the standard's own algorithm can add children to html: noframes ("after frameset"), and
+    # formatting elements reconstructed from the active list by whitespace in "after after frameset"
+    if extra and els[1] != "frameset":
         return "html element children are %r" % (els[:6],)
     return None
 
